@@ -25,6 +25,9 @@ def run(check):
                       'modifiers:_autokwoargs', 'modifiers:annotate.__call__'], 'instead of the documented ValueError/TypeError'))
     from ..rules_modifiers import rule_kwopos_index
     check.run_rule('C12.R1k', lambda c: rule_kwopos_index(c, 'C12.R1'))
+    # the function being decorated may already be a translator: both selections must survive, also on the bound copy (shared with C18.R2)
+    from ..rules_modifiers import rule_merge_other
+    check.run_rule('C12.R7', lambda c: rule_merge_other(c, 'C12.R7'))
     from ..rules_modifiers import rule_empty_selection_guarded
     check.run_rule('C12.R5', lambda c: rule_empty_selection_guarded(c, 'C12.R5'))
     check.run_rule('C12.R2', lambda c: rule_call_table(c, 'C12.R2'))
